@@ -824,7 +824,8 @@ def run_plan(plan, sched_seed=None, sched_replay=None):
         world.open_gate('done')
         world.run_phase()
 
-    world.check_loop_health(allow_hang=True, loop_errors=False)
+    world.check_loop_health(allow_hang=True, loop_errors=False,
+                            internal_errors=True)
     carried = sum(len(t.recv) for t in targets) + \
         sum(len(o.recv) for o in origins)
     sample = {'mode': mode, 'key_option': plan['key_option'],
